@@ -587,6 +587,7 @@ func c12Case(s Src, tier string, nsched int) *Case {
 		cs.Sig += ",!" + ex.MustFail
 	}
 	base := scriptCfg(prog, "")
+	base.TTY = drawTTY(s) // the same for every run of the case
 	cs.Runs = []Run{{Role: "identity", Cfg: base}}
 	rev := base
 	nranges := 4*len(ex.Blocks) + 3*len(ex.Ops) + 8
@@ -597,6 +598,7 @@ func c12Case(s Src, tier string, nsched int) *Case {
 	// the same operations typed as one line at the interactive prompt
 	rc := replCfg(ex.ReplLine + "\n")
 	rc.Orders = rev.Orders
+	rc.TTY = base.TTY
 	cs.Runs = append(cs.Runs, Run{Role: "repl-one-line", Cfg: rc})
 	for i := 0; i < nsched; i++ {
 		c := base
